@@ -133,6 +133,17 @@ TEXT.update({
                     'and reports whether a Kani run is recorded for exactly this source text.')),
 })
 
+TEXT.update({
+    'C08': dict(
+        technique='deductive verification (Verus): absorbed-list postconditions of release_absorbed_keys / add_new_mapping / newly_press on the real code + history invariant in the verified universal client',
+        level_text=('Proof, unbounded, for layouts in which every absorbing mapping outputs a non-modifier key: the universal client keeps, for every key absorbed and neither released nor pressed again since, the invariant '
+                    '"it is no longer considered pressed, or it is on the absorbed list under the trigger that absorbed it" over every history (every later press, not only the next one), and proves at every press: '
+                    '(i) a key other than that trigger fires no mapping requiring the absorbed key (firing = layout_fired with the effective absorbed set); (ii) if the step pressed a non-modifier key the absorbed key is '
+                    'not held afterwards unless a mapping in effect outputs it; (iii) when the pressed key is the absorbing trigger every held key counts, so the same chord fires the same mapping again; (iv) a key '
+                    'pressed again is no longer absorbed unless the fired mapping absorbs it anew. The known finding D8 (two absorbing mappings, the later one with a modifier-only output) is outside the claim and is replayed on every run.'),
+        design_ref='6.8', level_note=MAPPER_NOTE + ' Known finding D8 recorded, not repaired.'),
+})
+
 NOT_APPLICABLE = {
     'C15': 'both sides are serde / serde_json (derive(Serialize), serde_json::Value, enum_utils FromStr): no contract within reach of Verus or Kani can express or decide it without assuming the behaviour of the libraries, i.e. the property (DESIGN 6.15)',
     'C16': 'keyboard_listing.rs is str splitting/searching iterators, /proc and /sys I/O and an external glob crate; Verus does not reason about str contents and Kani does not terminate on symbolic text (DESIGN 6.16)',
